@@ -73,6 +73,9 @@ def reader_tick_limit(ctx, rule='LIMIT/reader-max-tick'):
 
 def run(ctx):
   reader_tick_limit(ctx)
+  from sa import pitfalls as _pf
+  _pf.apply(ctx, 'PITFALL', [fi_ for q_, fi_ in sorted(ctx.P.module('midi_io').functions.items())], ['stale-loop-variable'], {
+      'stale-loop-variable': 'the events built that way all carry the instrument number, program and drum flag of the last instrument: control changes move to another instrument'})
   pm = pmfacts.PMFacts()
   w0 = ctx.func('midi_io:note_sequence_to_pretty_midi')
   w = Canon(w0, roles.discover(w0, {
